@@ -22,7 +22,7 @@ ASSUMPTIONS = ['reference interpreters A and B (ypv/refA.py, ypv/refB.py) implem
 
 def plan(tier, seed):
     if tier == 'quick':
-        return {'n': 16000, 'deadline': 45, 'floor': {'distinct_nontrivial': 2000, 'answers_compared': 5000}}
+        return {'n': 12000, 'deadline': 150, 'floor': {'distinct_nontrivial': 2000, 'answers_compared': 5000}}
     return {'n': 400000, 'deadline': 540, 'floor': {'distinct_nontrivial': 30000, 'answers_compared': 100000}}
 
 
